@@ -69,13 +69,17 @@ def run(tier):
     for fn in db.order:
         if fn['q'] == PT + 'parse' and any('internal::state<' in (d.get('t') or '') for d in decls(fn)):
             kinds['parse'] += 1
-            probs = check_parse(fn)
+            try: probs = check_parse(fn, db)
+            except core.AnalysisBroken as e:
+                R.broke(str(e)); continue
             R.ob(ok=not probs, key=fn['disp'])
             for p in probs: R.violation('T-parse', 'contrib/parse_tree.hpp::parse', p, {'function': fn['disp']}, key=('P', p))
         cq = (fn.get('cls') or {}).get('q', '')
         if fn['n'] == 'transform' and cq in (PT + 'remove_content', PT + 'fold_one', PT + 'discard_empty'):
             kinds['transform'] += 1
-            probs = check_transform(fn, cq[len(PT):], db)
+            try: probs = check_transform(fn, cq[len(PT):], db)
+            except core.AnalysisBroken as e:
+                R.broke(str(e)); continue
             R.ob(ok=not probs, key=fn['disp'])
             for p in probs: R.violation('T-transform', 'contrib/parse_tree.hpp::%s::transform' % cq[len(PT):], p, key=('X', cq, p))
     R.cov['obligations_by_kind'] = dict(kinds)
@@ -93,28 +97,43 @@ def decls(fn):
     return [d for s in walk(fn.get('body'), lambda n: n.get('k') == 'Decl', []) for d in s.get('decls', [])]
 
 
-def check_parse(fn):
-    """internal::state< Node > state; if( !parse< Rule, Action, make_control<...>::type >( in, st..., state ) ) return nullptr; return move( state.back() )"""
-    probs = []
-    calls = walk(fn.get('body'), lambda n: n.get('k') == 'call' and n.get('cq') == T + 'parse', [])
-    if len(calls) != 1: return ['parse_tree::parse does not call the plain parse exactly once']
-    ifs = walk(fn.get('body'), lambda n: n.get('k') == 'If', [])
-    ok = False
-    for i in ifs:
-        c = i.get('cond') or {}
-        if c.get('k') == 'un' and c.get('op') == '!' and walk(c, lambda n: n is calls[0], []):
-            rets = walk(i.get('then'), lambda n: n.get('k') == 'Return', [])
-            if rets and walk(rets[0], lambda n: n.get('k') == 'nullptr', []): ok = True
-    if not ok: probs.append('a failed parse does not return a null tree')
-    rets = [r for r in walk(fn.get('body'), lambda n: n.get('k') == 'Return', [])]
-    last = rets[-1] if rets else None
-    if last is None or ('call', 'back') not in leaves(last.get('e')): probs.append('a successful parse does not return the root frame (state.back())')
-    # the builder state is the last state argument of the plain parse
-    args = calls[0].get('args', [])
-    if not args or leaves(args[-1]) != [('ref', 'state')]: probs.append('the builder state is not passed as the last state')
-    tm = [x.get('s') for x in (calls[0].get('cta') or []) if x.get('k') == 'tmpl']
-    if not any('make_control' in (x or '') for x in tm): probs.append('the plain parse does not run under the tree-building control')
-    return probs
+def check_parse(fn, db=None):
+    """parse_tree::parse evaluated over the result of the plain parse: false -> a null tree, true -> the root frame; the plain parse runs under the
+    tree-building control with the builder state as its last state"""
+    from ..bits import Space, Interp, St, Val, Opaque, Ptr, Agg, outcomes, Unmodelled, Blowup
+    sp = Space(); sp.var('ok', 2)
+    it = Interp(db, sp)
+    probs = []; seen = []
+    def plain(itp, e, ov, av, st):
+        tm = [x.get('s') for x in (e.get('cta') or []) if x.get('k') == 'tmpl']
+        seen.append(1)
+        if not any('make_control' in (x or '') for x in tm): probs.append('the plain parse does not run under the tree-building control')
+        if not av or not (isinstance(av[-1], Opaque) and av[-1].tag == 'obj:state'): probs.append('the builder state is not passed as the last state')
+        return iter([(Val({0: [0, 1]}), st)])
+    def state_call(itp, e, ov, av, st):
+        cn = e.get('cn') or ''
+        if isinstance(ov, Opaque) and ov.tag == 'obj:state' and cn == 'back': return iter([(Opaque('obj:root'), st)])
+        if isinstance(ov, Opaque) and ov.tag == 'obj:state.stack' and cn == 'size': return iter([(Val.const(1), st)])      # the stack is back to the root frame (T-stack with C08)
+        if cn in ('move', 'forward') and av: return iter([(av[0], st)])
+        return None
+    it.intercept.update({T + 'parse': plain, 'back': state_call, 'size': state_call, 'move': state_call, 'forward': state_call})
+    it.construct_hook = lambda e, av=None, st=None: (('internal::state<' in (e.get('cq') or '')) if av is None else iter([(Opaque('obj:state'), st)]))
+    st = St(sp.full())
+    for i, p in enumerate(fn['params']): st.env[p['id']] = Opaque('input' if i == 0 else 'state%d' % i)
+    try:
+        outs = outcomes(it, fn, st)
+    except (Unmodelled, Blowup) as e:
+        raise core.AnalysisBroken('parse_tree::parse could not be evaluated: %s' % e)
+    def null(v):
+        return (isinstance(v, Ptr) and v.base == 'null') or (isinstance(v, Agg) and all(null(x) for x in v.items)) or (isinstance(v, Val) and v.is_const() and v.off == 0)
+    for kind, v, s in outs:
+        for a, b in sp.project(s.cond, 0):
+            for x in range(a, b + 1):
+                if kind != 'return': probs.append('parse_tree::parse ends with %s' % kind)
+                elif x == 0 and not null(v): probs.append('a failed parse does not return a null tree (%r)' % (v,))
+                elif x == 1 and not (isinstance(v, Opaque) and v.tag == 'obj:root'): probs.append('a successful parse does not return the root frame state.back() (%r)' % (v,))
+    if len(seen) != 1: probs.append('parse_tree::parse does not call the plain parse exactly once')
+    return sorted(set(probs))
 
 
 def check_transform(fn, which, db=None):
@@ -148,7 +167,7 @@ def check_transform(fn, which, db=None):
             for a, b in sp.project(s.cond, 0):
                 for x in range(a, b + 1): got[x] = (kind, tuple(s.eff))
     except (Unmodelled, Blowup) as e:
-        return ['%s::transform could not be evaluated: %s' % (which, e)]
+        raise core.AnalysisBroken('%s::transform could not be evaluated: %s' % (which, e))
     want = {'remove_content': {0: ('remove_content',), 1: ('remove_content',), 2: ('remove_content',)},
             'fold_one': {0: ('remove_content',), 1: ('replace', 'child:front'), 2: ('remove_content',)},
             'discard_empty': {0: ('reset',), 1: ('remove_content',), 2: ('remove_content',)}}[which]
